@@ -676,7 +676,19 @@ impl<SE: extensions::ShellExtensions> ExecuteInPipeline<SE> for ast::Command {
                 // Set up any additional redirects.
                 if let Some(redirects) = redirects {
                     for redirect in &redirects.0 {
-                        setup_redirect(&mut pipeline_context.shell, &mut params, redirect).await?;
+                        // A redirection that cannot be set up fails this command, not the
+                        // script: report it and return a failure status (which ends the
+                        // shell only under errexit, outside an exempt context).
+                        if let Err(e) =
+                            setup_redirect(&mut pipeline_context.shell, &mut params, redirect).await
+                        {
+                            writeln!(params.stderr(&pipeline_context.shell), "error: {e}")?;
+                            let mut result = ExecutionResult::general_error();
+                            if !params.suppress_errexit {
+                                pipeline_context.shell.apply_errexit_if_enabled(&mut result);
+                            }
+                            return Ok(result.into());
+                        }
                     }
                 }
 
